@@ -91,6 +91,11 @@ type emitter struct {
 	// alreadyInitializedTemplatePkgs keeps track of the template packages for
 	// which the initialization code has already been emitted.
 	alreadyInitializedTemplatePkgs map[string]bool
+
+	// templateInits, if not nil, is the builder of the function, called
+	// before any other code of a template, that initializes the imported
+	// template files.
+	templateInits *functionBuilder
 }
 
 // newEmitter returns a new emitter with the given type infos, format types,
